@@ -138,6 +138,17 @@ CHECKS["C03"] = dict(
     design_ref="DESIGN.md section 6, C03",
 )
 
+CHECKS["C09"] = dict(
+    category="other",
+    technique="who-may-call and who-may-construct rules on the sfnt producer, MIR dominance chain for the pipeline order, provenance of the checkSumAdjustment value and of the directory record fields, container-type rule for tag order, same-origin rule for the loca format, store-after-serialise rule, narrowing rule on the assembly code",
+    text=("Static decision of the writer pipeline behind C09: one producer of sfnt headers and directories; offset table, directory, padding, header "
+          "checksum, checkSumAdjustment = 0xB1B0AFBA - (headers + tables), bodies — in that order on every path; each table padded before its "
+          "checksum, records carrying the unpadded length and the running padded offset through checked conversions; tables kept and emitted "
+          "in tag order; glyf, loca and head written with one loca format; the WOFF2 provider serialises head after its last modification. "
+          "Mutual consistency of table contents and the search-field values are not decided."),
+    design_ref="DESIGN.md section 6, C09",
+)
+
 NOT_APPLICABLE = {
     "C05": "every clause is a numeric relation between table contents and output values; the structural parts (termination, borrow and panic discipline, attachment index validation) are decided under C02; no GPOS-specific clause is visible in the shape of the code",
 }
